@@ -254,7 +254,7 @@ def concrete_playback(scratch, harness, failed_desc):
     cmd = ["cargo", "kani", "--no-default-features", "--target-dir", KANI_TARGET] + KANI_FLAGS
     cmd += ["-Z", "concrete-playback", "--concrete-playback=print", "--exact", "--harness", harness.full]
     rc, out, wall = run(cmd, cwd=scratch.dir, env={"CARGO_NET_OFFLINE": "true"},
-                        timeout=(harness.timeout or 300) + 300)
+                        timeout=420)
     tests = re.findall(r"```\n(.*?)```", out, re.S)
     want = failed_desc.strip('"')
     pick = None
